@@ -193,7 +193,8 @@ def concrete(cfg, rng):
     if cfg['om'] == 'copolymer':
         rho[T[1]] = rho[T[0]]
     d = {'types': T, 'kT': float(rng.choice([1.0, 1.5, 0.8])), 'dr': 0.125, 'length': 256, 'rho': rho,
-         'diam': {t: [1.0, 1.0, 1.5][i] for i, t in enumerate(T)}, 'pot': {}, 'clo': {}, 'omega': {}}
+         'diam': {t: [1.0, 1.0, 1.5][i] for i, t in enumerate(T)}, 'pot': {}, 'clo': {}, 'omega': {},
+         'assign': 'group' if rng.random() < 0.5 else 'pair'}
     for a, b in systems.pairs(T):
         key = '%s-%s' % (a, b)
         d['pot'][key] = POT[cfg['pot']](a, b)
